@@ -151,7 +151,11 @@ def run(prop, seed, tier):
                 fail('rejected', schema, 'well-formed expressions rejected: %s' % err[:200])
                 continue
             nodes = nodes['e%d' % r]
-            mod = lib.import_generated(out, 'e%d' % r)
+            try:
+                mod = lib.import_generated(out, 'e%d' % r)
+            except Exception as ex:
+                fail('python-module', schema, 'the generated Python module does not import: %r' % ex)
+                continue
             hpp = open(os.path.join(out, 'e%d.pp.hpp' % r)).read()
             for n in nodes:
                 if isinstance(n, model.Constant) and n.name in expect:
